@@ -84,6 +84,22 @@ theorem sameOn_addLink {P : Nat → Prop} (g : Graph) {p : Nat} (n : String) (t 
    fun k' _ a' => getAttr_addLink g p n t k' a',
    fun k' hk => links_addLink_ne g n t (fun (e : k' = p) => hp (e ▸ hk))⟩
 
+theorem sameOn_delLink {P : Nat → Prop} (g : Graph) {p : Nat} (n : String)
+    (hp : ¬ P p) : SameOn P g (g.delLink p n) :=
+  ⟨Nat.le_refl _, Nat.le_refl _,
+   fun k' h => by unfold Has; rw [node?_isSome_delLink]; exact h,
+   fun k' h => by unfold Has at h; rw [node?_isSome_delLink] at h; exact .inl h,
+   fun k' _ a' => getAttr_delLink g p n k' a',
+   fun k' hk => links_delLink_ne g n (fun (e : k' = p) => hp (e ▸ hk))⟩
+
+/-- `H5Group.create_link` on a node outside `P` -/
+theorem sameOn_createLinkIn {P : Nat → Prop} (g : Graph) {k : Nat} (n : String) (t : Nat)
+    (hk : ¬ P k) : SameOn P g (createLinkIn g k n t) := by
+  unfold createLinkIn
+  split
+  · exact (sameOn_delLink g n hk).trans (sameOn_addLink _ n t hk)
+  · exact sameOn_addLink g n t hk
+
 theorem sameOn_newNode (P : Nat → Prop) (g : Graph) (kd : NKind) : SameOn P g (g.newNode kd).1 :=
   ⟨Nat.le_succ _, Nat.le_refl _,
    fun k' h => by unfold Has at *; rw [node?_isSome_newNode, h]; rfl,
